@@ -30,6 +30,8 @@ def build_inputs(c, t, rng):
             seen_routes.add(r.route)
             for kind, el, raw in reqgen.header_value_truncations(r):
                 inputs.append(({"route": r.route, "el": el, "kind": kind}, raw))
+    for kind, el, raw in reqgen.dictionary_requests(valid):
+        inputs.append(({"route": "dictionary", "el": kind, "kind": kind, "always_b": kind.endswith("all-at-once")}, raw))
     for kind, el, raw in reqgen.bombs(valid):
         inputs.append(({"route": "bomb", "el": kind.split(":")[0], "kind": kind, "always_b": True}, raw))
     # the same bombs for a server started with a larger (documented, configurable) request buffer
@@ -176,7 +178,7 @@ def engine_b(c, t, pick, lane, concurrent, args=None, ip="127.0.0.1"):
         label, raw = item
         with lock:
             s = srv
-        data, end = s.request(raw, timeout=15)
+        data, end = s.request(raw, timeout=15 if raw else 1)
         return label, raw, data, end, s
 
     try:
@@ -307,6 +309,9 @@ def judge_b(c, label, raw, data, end, s, lane, threads, check_process=True, sequ
         return  # attributed to the case that killed the process
     if len(raw) > 10000 and end == "reset" and not data:
         c.count("inconclusive_reset_on_oversized_input")
+        return
+    if not data and not raw:
+        c.count("nothing_sent_nothing_answered (the server waits for the first byte; not judged)")
         return
     if not data:
         if check_process or sequential:
